@@ -176,7 +176,10 @@ pub fn prop_c06_raw(raw: &[Vec<u8>]) -> String {
     let full_dump = dump_beatmap(&full.map);
     // map parser calls back to line indices with the independent framing transcription
     let Some(calls) = crate::frame::spec_frame_idx(lines) else { return "SKIP framing".to_owned() };
-    if calls.len() != full.log.len() || calls.iter().zip(&full.log).any(|(i, (l, _))| lines[*i].trim_end() != l) {
+    // the k-th parser call belongs to the k-th line the framing hands on; when the counts agree the rejected calls can be
+    // traced back to their source lines even if a line did not reach its parser as written (that is C05 / C10's subject,
+    // but "the file without the rejected line decodes to the same result" is still this property)
+    if calls.len() != full.log.len() {
         return "SKIP framing-mismatch (see C05)".to_owned();
     }
     let mut rejected = 0;
